@@ -1,6 +1,6 @@
 (* C16: the field invariant holds after every sequence of search operators *)
 From Coq Require Import List String NArith Bool Arith Lia.
-From FV Require Import Model.GenFieldM.
+From FV Require Import Base.Grammar Model.GenFieldM.
 Import ListNotations.
 Open Scope list_scope.
 
@@ -49,7 +49,7 @@ Qed.
 
 Theorem step_inv g s o : Inv s -> Inv (fst (step g s o)).
 Proof.
-  intros HI. destruct o as [fs|i k a|i k a|i|i k v|i k v|i k i' k'|i]; cbn [step].
+  intros HI. destruct o as [fs|i k a|i k a|i|i k v|i k v|i k a v|i k i' k'|i]; cbn [step].
   - destruct (gen_all g fs) as [[fl el]|] eqn:E; cbn [fst]; [|exact HI].
     destruct (gen_all_spec _ _ _ _ E) as [H1 _].
     intros d f Hd Hf. cbn [pop log] in *. apply in_app_or in Hd. destruct Hd as [Hd|[Hd|[]]].
@@ -62,6 +62,9 @@ Proof.
   - exact HI.
   - exact HI.
   - exact HI.
+  - destruct (get_field s i k) as [f|]; [|exact HI]. destruct (g (f_nt f) a) as [v'|]; [|exact HI].
+    destruct (list_eqb N.eqb v' v); [|exact HI].
+    cbn [fst]. apply set_field_inv; [exact HI|]. apply in_or_app; right; left; reflexivity.
   - destruct (get_field s i k) as [f|]; [|exact HI]. destruct (get_field s i' k') as [f'|] eqn:E'; [|exact HI].
     destruct (String.eqb (f_nt f) (f_nt f')); [|exact HI]. cbn [fst].
     apply set_field_inv; [exact HI|]. rewrite app_nil_r.
@@ -71,7 +74,7 @@ Qed.
 
 Theorem step_logok g s o : LogOK g s -> LogOK g (fst (step g s o)).
 Proof.
-  intros HL. destruct o as [fs|i k a|i k a|i|i k v|i k v|i k i' k'|i]; cbn [step].
+  intros HL. destruct o as [fs|i k a|i k a|i|i k v|i k v|i k a v|i k i' k'|i]; cbn [step].
   - destruct (gen_all g fs) as [[fl el]|] eqn:E; cbn [fst]; [|exact HL].
     destruct (gen_all_spec _ _ _ _ E) as [_ H2].
     intros nt a v Hin. cbn [log] in Hin. apply in_app_or in Hin. destruct Hin as [Hin|Hin]; [apply HL; exact Hin | eapply H2; exact Hin].
@@ -84,6 +87,10 @@ Proof.
   - exact HL.
   - exact HL.
   - exact HL.
+  - destruct (get_field s i k) as [f|]; [|exact HL]. destruct (g (f_nt f) a) as [v'|] eqn:Eg; [|exact HL].
+    destruct (list_eqb N.eqb v' v); [|exact HL].
+    cbn [fst]. intros nt a' v0 Hin. unfold set_field in Hin; cbn [log] in Hin. apply in_app_or in Hin.
+    destruct Hin as [Hin|[Hin|[]]]; [apply HL; exact Hin | inversion Hin; subst; exact Eg].
   - destruct (get_field s i k) as [f|]; [|exact HL]. destruct (get_field s i' k') as [f'|]; [|exact HL].
     destruct (String.eqb (f_nt f) (f_nt f')); [|exact HL]. cbn [fst].
     intros nt a v Hin. unfold set_field in Hin; cbn [log] in Hin. rewrite app_nil_r in Hin. apply HL; exact Hin.
@@ -112,10 +119,12 @@ Qed.
 (* the history of generator returns only grows *)
 Theorem log_monotone g s o e : In e (log s) -> In e (log (fst (step g s o))).
 Proof.
-  intros H. destruct o as [fs|i k a|i k a|i|i k v|i k v|i k i' k'|i]; cbn [step]; auto.
+  intros H. destruct o as [fs|i k a|i k a|i|i k v|i k v|i k a v|i k i' k'|i]; cbn [step]; auto.
   - destruct (gen_all g fs) as [[fl el]|]; cbn [fst log]; auto. apply in_or_app; left; exact H.
   - destruct (get_field s i k) as [f|]; auto. destruct (g (f_nt f) a); auto. cbn [fst set_field log]. apply in_or_app; left; exact H.
   - destruct (get_field s i k) as [f|]; auto. destruct (g (f_nt f) a); auto. cbn [fst set_field log]. apply in_or_app; left; exact H.
+  - destruct (get_field s i k) as [f|]; auto. destruct (g (f_nt f) a) as [v'|]; auto. destruct (list_eqb N.eqb v' v); auto.
+    cbn [fst set_field log]. apply in_or_app; left; exact H.
   - destruct (get_field s i k) as [f|]; auto. destruct (get_field s i' k') as [f'|]; auto.
     destruct (String.eqb (f_nt f) (f_nt f')); auto. cbn [fst set_field log]. apply in_or_app; left; exact H.
 Qed.
